@@ -16,8 +16,10 @@ Structure of (A): `stepIter`/`passCond`/`advance` put `increment_iter`/`decremen
 direction-generic form; `run` is `list(...)` continued from a partial `step`; `pos_step` treats
 one pointer position (passed / visited / StopIteration); `main_sim` is the induction over
 rows (`kr`) and positions in the row (`kq`), with explicit fuel bounds; `walk_eq_spec_fwd/rev`
-identify the walked rows with `specIter`; `good_of_mkCfg` supplies the facts about the
-constructor.
+identify the walked rows with `specIter`; `run_neg_prefix_fwd`, `run_neg_row_rev`,
+`run_neg_fresh_rev` treat an initial pointer with a negative coordinate; `good_of_mkCfg`
+supplies the facts about the constructor.  `ItArgsOK` has only the two conditions that exclude
+an IndexError of the real iterator.
 -/
 import BqVerif.Model.CircSim
 import Mathlib.Data.List.Nodup
@@ -1173,18 +1175,20 @@ theorem listMin_mem {l : List Nat} (h : l ≠ []) : listMin l ∈ l := by
       rw [this]; exact List.mem_cons_self
     · exact List.mem_cons_of_mem _ hm
 
-/-- The argument ranges under which (A) is proven (besides `mkCfg … = .ok cfg`). -/
+/-- The argument ranges under which (A) is proven (besides `mkCfg … = .ok cfg`).  Both
+conditions exclude an IndexError of the real iterator, which raises it exactly when a visited
+cell `_circuit[cycle][qudit]` lies outside the grid: a requested qudit `≥ num_qudits`
+(possible only for an explicit region; a qudit sequence is checked by the constructor), or a
+cycle `≥ num_cycles` (reachable only when an explicit `end` has such a cycle, because the
+intervals of the `all`/qudits modes and `region.max_cycle` may include `num_cycles` itself
+while the default `end` has cycle `num_cycles - 1`).  Nothing else is assumed: negative
+coordinates of `start`/`end` (which `CircuitPoint.is_point` accepts), points far outside the
+grid, regions with arbitrary intervals and circuits with 0 cycles are all covered. -/
 structure ItArgsOK (c : Circ P α) (a : ItArgs) : Prop where
   /-- explicit regions only mention qudits of the circuit -/
   region_lt : ∀ r, a.mode = .region r → ∀ e ∈ r, e.1 < c.radixes.length
   /-- the cycle of an explicit `end` exists (otherwise `_circuit[cycle]` raises IndexError) -/
   stop_lt : ∀ e, a.stop = some e → e.1 < (c.numCycles : Int)
-  /-- reverse iteration starts at `end`: an explicit `end` has non-negative coordinates -/
-  stop_nonneg : a.reverse = true → ∀ e, a.stop = some e → 0 ≤ e.1 ∧ 0 ≤ e.2
-  /-- forward iteration starts at `start`: it has a non-negative qudit -/
-  start_ok : a.reverse = false → 0 ≤ a.start.2
-  /-- reverse iteration to the default `end` of an empty circuit is not covered -/
-  cycles_pos : a.reverse = true → a.stop = none → 0 < c.numCycles
 
 theorem modeLists_region {n N : Nat} {m : Mode} {qs : List Nat} {rg : List (Nat × Nat × Nat)}
     (h : modeLists n N m = some (qs, rg)) : qs = rg.map (·.1) := by
@@ -1375,7 +1379,8 @@ theorem specIter_eq (c : Circ P α) (cfg : ItCfg) :
 
 theorem walk_eq_spec_fwd {c : Circ P α} {cfg : ItCfg} (G : Good c cfg)
     (hr : cfg.reverse = false) {cy0 q0 kq kr : Nat}
-    (hstart : cfg.start = ((cy0 : Int), (q0 : Int)))
+    (hs1 : cfg.start.1 = (cy0 : Int))
+    (hq0 : ∀ x : Nat, ptLt ((cy0 : Int), (x : Int)) cfg.start = false → q0 ≤ x)
     (hrow : rowShape cfg q0 (kq + 1)) (hrows : rowsShape cfg cy0 kr) :
     cycleScan c cfg cy0 (dirL cfg.reverse q0 (kq + 1)) [] ++ laterRows c cfg cy0 kr
       = specIter c cfg := by
@@ -1392,9 +1397,7 @@ theorem walk_eq_spec_fwd {c : Circ P α} {cfg : ItCfg} (G : Good c cfg)
     apply filter_eq_of_lt List.pairwise_lt_range' List.pairwise_lt_range
     intro x hx
     obtain ⟨e1, e2, e3, e4, _⟩ := eligible_facts G hx
-    rw [hstart] at e4
-    simp only [ptLt, Bool.or_eq_false_iff, decide_eq_false_iff_not, Bool.and_eq_false_imp,
-      beq_iff_eq, true_imp_iff] at e4
+    have := hq0 x e4
     simp only [List.mem_range'_1, List.mem_range]
     omega
   have h1 : ∀ cy ∈ List.range' (cy0 + 1) kr,
@@ -1419,14 +1422,16 @@ theorem walk_eq_spec_fwd {c : Circ P α} {cfg : ItCfg} (G : Good c cfg)
   congr 1
   apply filter_eq_of_lt List.pairwise_lt_range' List.pairwise_lt_range
   intro x hx
-  simp only [rowLive, hstart, Bool.and_eq_true, decide_eq_true_eq] at hx
+  simp only [rowLive, hs1, Bool.and_eq_true, decide_eq_true_eq] at hx
   have g1 := G.stop_cy; have g2 := G.stop_lt
   simp only [List.mem_range'_1, List.mem_range]
   omega
 
 theorem walk_eq_spec_rev {c : Circ P α} {cfg : ItCfg} (G : Good c cfg)
     (hr : cfg.reverse = true) {cy0 q0 kq kr : Nat}
-    (hstop : cfg.stop = ((cy0 : Int), (q0 : Int)))
+    (hq0 : ∀ x : Nat, eligible cfg cy0 x = true → x ≤ q0)
+    (hdead : ∀ x q : Nat, cy0 < x → eligible cfg x q = false)
+    (hlt : cy0 < c.numCycles)
     (hrow : rowShape cfg q0 (kq + 1)) (hrows : rowsShape cfg cy0 kr) :
     cycleScan c cfg cy0 (dirL cfg.reverse q0 (kq + 1)) [] ++ laterRows c cfg cy0 kr
       = specIter c cfg := by
@@ -1443,10 +1448,8 @@ theorem walk_eq_spec_rev {c : Circ P α} {cfg : ItCfg} (G : Good c cfg)
     apply cycleScan_congr
     apply filter_eq_of_gt (pairwise_gt_dnL hkq) (pairwise_gt_range_reverse _)
     intro x hx
-    obtain ⟨e1, e2, e3, _, e5⟩ := eligible_facts G hx
-    rw [hstop] at e5
-    simp only [ptLt, Bool.or_eq_false_iff, decide_eq_false_iff_not, Bool.and_eq_false_imp,
-      beq_iff_eq, true_imp_iff] at e5
+    obtain ⟨e1, e2, e3, _, _⟩ := eligible_facts G hx
+    have := hq0 x hx
     rw [mem_dnL hkq]
     simp only [List.mem_reverse, List.mem_range]
     omega
@@ -1467,60 +1470,261 @@ theorem walk_eq_spec_rev {c : Circ P α} {cfg : ItCfg} (G : Good c cfg)
       g cy0 ++ (dnL (cy0 - 1) cy0).flatMap g = (dnL cy0 (cy0 + 1)).flatMap g := by
     intro g; rw [dnL, List.flatMap_cons]
   refine (this (fun cy => cycleScan c cfg cy (List.range c.radixes.length).reverse [])).trans ?_
-  rw [flatMap_filter (p := rowLive cfg) (dnL cy0 (cy0 + 1))
-      (fun x hx => cycleScan_nil_of_not_rowLive hx _ _),
-    flatMap_filter (p := rowLive cfg) (List.range c.numCycles).reverse
-      (fun x hx => cycleScan_nil_of_not_rowLive hx _ _)]
+  have hnil : ∀ x, (fun x => decide (x ≤ cy0)) x = false →
+      cycleScan c cfg x (List.range c.radixes.length).reverse [] = [] := by
+    intro x hx
+    simp only [decide_eq_false_iff_not] at hx
+    exact cycleScan_nil _ _ (fun q _ => hdead x q (by omega))
+  rw [flatMap_filter (p := fun x => decide (x ≤ cy0)) (dnL cy0 (cy0 + 1)) hnil,
+    flatMap_filter (p := fun x => decide (x ≤ cy0)) (List.range c.numCycles).reverse hnil]
   congr 1
   apply filter_eq_of_gt (pairwise_gt_dnL (Nat.le_refl _)) (pairwise_gt_range_reverse _)
   intro x hx
-  simp only [rowLive, hstop, Bool.and_eq_true, decide_eq_true_eq] at hx
-  have g2 := G.stop_lt
-  rw [hstop] at g2
+  simp only [decide_eq_true_eq] at hx
   rw [mem_dnL (Nat.le_refl _)]
   simp only [List.mem_reverse, List.mem_range]
-  simp only at g2
   omega
+
+/-! ### initial pointers off the grid -/
+
+theorem inQudits_neg (cfg : ItCfg) {q : Int} (h : q < 0) : inQudits cfg q = false := by
+  unfold inQudits
+  rw [List.any_eq_false]
+  intro x _
+  simp only [beq_iff_eq]
+  omega
+
+theorem passCond_neg (cfg : ItCfg) {s : ItState} (h : s.qudit < 0) : passCond cfg s = true := by
+  unfold passCond
+  simp [inQudits_neg cfg h]
+
+/-- forward: a pointer at a negative qudit walks up to qudit 0 -/
+theorem run_neg_prefix_fwd {c : Circ P α} {cfg : ItCfg} (hr : cfg.reverse = false)
+    {inner fN fC : Nat} (cy : Int) :
+    ∀ (d k : Nat), run c cfg inner fN fC (stepIter cfg (k + d) ⟨cy, -(d : Int), []⟩)
+      = run c cfg inner fN fC (stepIter cfg k ⟨cy, 0, []⟩)
+  | 0, k => by simp
+  | d + 1, k => by
+    have hp : passCond cfg ⟨cy, -((d + 1 : Nat) : Int), []⟩ = true :=
+      passCond_neg cfg (by simp only; omega)
+    rw [show k + (d + 1) = (k + d) + 1 by omega, run_pass hp]
+    have : advance cfg ⟨cy, -((d + 1 : Nat) : Int), []⟩ = ⟨cy, -(d : Int), []⟩ := by
+      unfold advance
+      simp only [hr, Bool.false_eq_true, if_false]
+      rw [if_neg (by omega)]
+      congr 1
+      omega
+    rw [this]
+    exact run_neg_prefix_fwd hr cy d k
+
+/-- in a row before the grid the first pointer not passed raises StopIteration -/
+theorem visitBody_neg_stop {c : Circ P α} {cfg : ItCfg} (G : Good c cfg) {inner fN : Nat}
+    {s : ItState} (h : s.cycle < 0) : visitBody c cfg inner fN s = .stop := by
+  unfold visitBody
+  rw [if_pos]
+  have := G.start_cy
+  simp only [ptLt, Bool.or_eq_true, decide_eq_true_eq, Bool.and_eq_true, beq_iff_eq]
+  omega
+
+/-- reverse: at the first qudit of a row before the grid the iterator stops -/
+theorem run_neg_fresh_rev {c : Circ P α} {cfg : ItCfg} (G : Good c cfg) (hr : cfg.reverse = true)
+    {inner fN fC : Nat} {cy : Int} (hcy : cy < 0) (k : Nat) (hk : 1 ≤ k) :
+    run c cfg inner fN fC (stepIter cfg k ⟨cy, cfg.maxQ, []⟩) = .ok (some []) := by
+  obtain ⟨k, rfl⟩ : ∃ k0, k = k0 + 1 := ⟨k - 1, by omega⟩
+  have hp : passCond cfg ⟨cy, cfg.maxQ, []⟩ = false := by
+    have h1 : inQudits cfg (cfg.maxQ : Int) = true := by
+      rw [inQudits_cast]; simpa using G.maxQ_mem
+    simp only [passCond, hr, h1, if_true, List.contains_nil, Bool.not_true, Bool.or_self,
+      Bool.false_or, Bool.and_eq_false_imp, decide_eq_false_iff_not]
+    intro _; omega
+  rw [run_visit hp, visitBody_neg_stop G hcy]
+  rfl
+
+/-- reverse: from a pointer in a row before the grid nothing is yielded -/
+theorem run_neg_row_rev {c : Circ P α} {cfg : ItCfg} (G : Good c cfg) (hr : cfg.reverse = true)
+    {inner fN fC : Nat} {cy : Int} (hcy : cy < 0) :
+    ∀ (m : Nat) (q : Int) (k : Nat), q < (cfg.minQ : Int) + m → m + 2 ≤ k →
+      run c cfg inner fN fC (stepIter cfg k ⟨cy, q, []⟩) = .ok (some []) := by
+  have final : ∀ k, 1 ≤ k →
+      run c cfg inner fN fC (stepIter cfg k ⟨cy - 1, cfg.maxQ, []⟩) = .ok (some []) :=
+    fun k hk => run_neg_fresh_rev G hr (by omega) k hk
+  intro m
+  induction m with
+  | zero =>
+    intro q k hq hk
+    obtain ⟨k, rfl⟩ : ∃ k0, k = k0 + 1 := ⟨k - 1, by omega⟩
+    cases hp : passCond cfg ⟨cy, q, []⟩
+    · rw [run_visit hp, visitBody_neg_stop G hcy]; rfl
+    · rw [run_pass hp]
+      have : advance cfg ⟨cy, q, []⟩ = ⟨cy - 1, cfg.maxQ, []⟩ := by
+        unfold advance
+        simp only [hr, if_true]
+        rw [if_pos (by omega)]
+      rw [this]
+      exact final k (by omega)
+  | succ m ih =>
+    intro q k hq hk
+    obtain ⟨k, rfl⟩ : ∃ k0, k = k0 + 1 := ⟨k - 1, by omega⟩
+    cases hp : passCond cfg ⟨cy, q, []⟩
+    · rw [run_visit hp, visitBody_neg_stop G hcy]; rfl
+    · rw [run_pass hp]
+      by_cases hw : q - 1 < (cfg.minQ : Int)
+      · have : advance cfg ⟨cy, q, []⟩ = ⟨cy - 1, cfg.maxQ, []⟩ := by
+          unfold advance
+          simp only [hr, if_true]
+          rw [if_pos hw]
+        rw [this]
+        exact final k (by omega)
+      · have : advance cfg ⟨cy, q, []⟩ = ⟨cy, q - 1, []⟩ := by
+          unfold advance
+          simp only [hr, if_true]
+          rw [if_neg hw]
+        rw [this]
+        exact ih (q - 1) k (by push_cast at hq ⊢; omega) (by omega)
+
+theorem specIter_nil {c : Circ P α} {cfg : ItCfg}
+    (h : ∀ cy q : Nat, eligible cfg cy q = false) : specIter c cfg = [] := by
+  rw [specIter_eq, List.flatMap_eq_nil_iff]
+  intro cy _
+  exact cycleScan_nil _ _ (fun q _ => h cy q)
 
 /-! ### (A) the iterator returns `specIter` -/
 
 /-- Forward iteration, any fuel above the number of pointer positions. -/
 theorem gridCollect_fwd {c : Circ P α} {cfg : ItCfg} (G : Good c cfg) (hr : cfg.reverse = false)
-    {cy0 q0 : Nat} (hstart : cfg.start = ((cy0 : Int), (q0 : Int))) {F : Nat}
-    (hF : (cfg.maxQ - q0) + (cfg.maxCycle - cy0) * rowW cfg + 2 ≤ F) :
+    {F : Nat}
+    (hF : cfg.start.2.natAbs + cfg.maxQ + (cfg.maxCycle - cfg.start.1.toNat) * rowW cfg + 2 ≤ F) :
     gridCollect c cfg F F ⟨cfg.start.1, cfg.start.2, []⟩ = .ok (some (specIter c cfg)) := by
   obtain ⟨F, rfl⟩ : ∃ f, F = f + 1 := ⟨F - 1, by omega⟩
   rw [gridCollect_eq_run]
-  have hs : (⟨cfg.start.1, cfg.start.2, []⟩ : ItState) = st cy0 q0 [] := by rw [hstart]; rfl
-  rw [hs]
+  have h1 : 0 ≤ cfg.start.1 := by have := G.start_cy; omega
+  generalize hcy0 : cfg.start.1.toNat = cy0 at hF
+  generalize hq0' : cfg.start.2.toNat = q0
+  have hs1 : cfg.start.1 = (cy0 : Int) := by omega
+  -- walk up to qudit 0 when the pointer starts at a negative qudit
+  have hpre : ∃ k, cfg.maxQ + (cfg.maxCycle - cy0) * rowW cfg + 2 ≤ k ∧
+      run c cfg (F + 1) F F (stepIter cfg (F + 1) ⟨cfg.start.1, cfg.start.2, []⟩)
+        = run c cfg (F + 1) F F (stepIter cfg k (st cy0 q0 [])) := by
+    by_cases hq : 0 ≤ cfg.start.2
+    · refine ⟨F + 1, by omega, ?_⟩
+      have : (⟨cfg.start.1, cfg.start.2, []⟩ : ItState) = st cy0 q0 [] := by
+        unfold st; congr 1; omega
+      rw [this]
+    · refine ⟨F + 1 - cfg.start.2.natAbs, by omega, ?_⟩
+      have e1 : F + 1 = (F + 1 - cfg.start.2.natAbs) + cfg.start.2.natAbs := by omega
+      have e2 : (⟨cfg.start.1, cfg.start.2, []⟩ : ItState)
+          = ⟨cfg.start.1, -(cfg.start.2.natAbs : Int), []⟩ := by congr 1; omega
+      have e3 : (⟨cfg.start.1, 0, []⟩ : ItState) = st cy0 q0 [] := by
+        unfold st; congr 1; omega
+      rw [e2]
+      conv_lhs => rw [e1]
+      rw [run_neg_prefix_fwd hr, e3, ← e1]
+  obtain ⟨k, hk, hrun⟩ := hpre
+  rw [hrun]
   have hrow : rowShape cfg q0 (cfg.maxQ - q0 + 1) := by
     unfold rowShape; simp only [hr]; simp; omega
   have hrows : rowsShape cfg cy0 (cfg.maxCycle - cy0) := by
     unfold rowsShape; simp only [hr]; simp; omega
   have hl : live cfg cy0 q0 := by
-    unfold live; simp [hr, hstart, ptLt]
-  rw [main_sim G (F + 1) _ _ cy0 q0 [] (F + 1) F F hrow hrows hl (by omega) (by omega) (by omega)
+    unfold live
+    simp only [hr, Bool.false_eq_true, if_false, ptLt, Bool.or_eq_false_iff,
+      decide_eq_false_iff_not, Bool.and_eq_false_imp, beq_iff_eq]
+    omega
+  rw [main_sim G (F + 1) _ _ cy0 q0 [] k F F hrow hrows hl (by omega) (by omega) (by omega)
     (by omega)]
-  rw [walk_eq_spec_fwd G hr hstart hrow hrows]
+  refine congrArg (fun l => Except.ok (some l)) (walk_eq_spec_fwd G hr hs1 ?_ hrow hrows)
+  intro x hx
+  simp only [ptLt, Bool.or_eq_false_iff, decide_eq_false_iff_not, Bool.and_eq_false_imp,
+    beq_iff_eq] at hx
+  omega
 
 /-- Reverse iteration, any fuel above the number of pointer positions. -/
 theorem gridCollect_rev {c : Circ P α} {cfg : ItCfg} (G : Good c cfg) (hr : cfg.reverse = true)
-    {cy0 q0 : Nat} (hstop : cfg.stop = ((cy0 : Int), (q0 : Int))) {F : Nat}
-    (hF : (q0 - cfg.minQ) + cy0 * rowW cfg + 2 ≤ F) :
+    {F : Nat} (hF : cfg.stop.2.toNat + cfg.stop.1.toNat * rowW cfg + 3 ≤ F) :
     gridCollect c cfg F F ⟨cfg.stop.1, cfg.stop.2, []⟩ = .ok (some (specIter c cfg)) := by
   obtain ⟨F, rfl⟩ : ∃ f, F = f + 1 := ⟨F - 1, by omega⟩
   rw [gridCollect_eq_run]
-  have hs : (⟨cfg.stop.1, cfg.stop.2, []⟩ : ItState) = st cy0 q0 [] := by rw [hstop]; rfl
-  rw [hs]
-  have hrow : rowShape cfg q0 (q0 - cfg.minQ + 1) := by
-    unfold rowShape; simp only [hr]; simp; omega
-  have hrows : rowsShape cfg cy0 cy0 := by
-    unfold rowsShape; simp only [hr]; simp
-  have hl : live cfg cy0 q0 := by
-    unfold live; simp [hr, hstop, ptLt]
-  rw [main_sim G (F + 1) _ _ cy0 q0 [] (F + 1) F F hrow hrows hl (by omega) (by omega) (by omega)
-    (by omega)]
-  rw [walk_eq_spec_rev G hr hstop hrow hrows]
+  have hmq := rowW_pos G
+  have hlt := G.stop_lt
+  by_cases hc : cfg.stop.1 < 0
+  · -- `end` lies before the grid: nothing is eligible, the iterator stops at once
+    rw [run_neg_row_rev G hr hc (cfg.stop.2.toNat + 1) cfg.stop.2 (F + 1) (by omega) (by omega)]
+    rw [specIter_nil]
+    intro cy q
+    apply eligible_false_of_stop
+    simp only [ptLt, Bool.or_eq_true, decide_eq_true_eq, Bool.and_eq_true, beq_iff_eq]
+    omega
+  generalize hcy0 : cfg.stop.1.toNat = cy0 at hF
+  have hs1 : cfg.stop.1 = (cy0 : Int) := by omega
+  by_cases hq : 0 ≤ cfg.stop.2
+  · generalize hq0' : cfg.stop.2.toNat = q0 at hF
+    have hs2 : cfg.stop.2 = (q0 : Int) := by omega
+    have hs : (⟨cfg.stop.1, cfg.stop.2, []⟩ : ItState) = st cy0 q0 [] := by
+      unfold st; congr 1
+    rw [hs]
+    have hrow : rowShape cfg q0 (q0 - cfg.minQ + 1) := by
+      unfold rowShape; simp only [hr]; simp; omega
+    have hrows : rowsShape cfg cy0 cy0 := by
+      unfold rowsShape; simp only [hr]; simp
+    have hl : live cfg cy0 q0 := by
+      unfold live
+      simp only [hr, if_true, ptLt, Bool.or_eq_false_iff, decide_eq_false_iff_not,
+        Bool.and_eq_false_imp, beq_iff_eq]
+      omega
+    rw [main_sim G (F + 1) _ _ cy0 q0 [] (F + 1) F F hrow hrows hl (by omega) (by omega)
+      (by omega) (by omega)]
+    refine congrArg (fun l => Except.ok (some l))
+      (walk_eq_spec_rev G hr ?_ ?_ (by omega) hrow hrows)
+    · intro x hx
+      obtain ⟨_, _, _, _, e5⟩ := eligible_facts G hx
+      simp only [ptLt, Bool.or_eq_false_iff, decide_eq_false_iff_not, Bool.and_eq_false_imp,
+        beq_iff_eq] at e5
+      omega
+    · intro x q hx
+      apply eligible_false_of_stop
+      simp only [ptLt, Bool.or_eq_true, decide_eq_true_eq, Bool.and_eq_true, beq_iff_eq]
+      omega
+  · -- `end` has a negative qudit: one move wraps to the previous row
+    have hp : passCond cfg ⟨cfg.stop.1, cfg.stop.2, []⟩ = true :=
+      passCond_neg cfg (by simp only; omega)
+    rw [run_pass hp]
+    have hadv : advance cfg ⟨cfg.stop.1, cfg.stop.2, []⟩ = ⟨cfg.stop.1 - 1, cfg.maxQ, []⟩ := by
+      unfold advance
+      simp only [hr, if_true]
+      rw [if_pos (by omega)]
+    rw [hadv]
+    have hdeadrow : ∀ x q : Nat, cy0 ≤ x → eligible cfg x q = false := by
+      intro x q hx
+      apply eligible_false_of_stop
+      simp only [ptLt, Bool.or_eq_true, decide_eq_true_eq, Bool.and_eq_true, beq_iff_eq]
+      omega
+    cases cy0 with
+    | zero =>
+      rw [run_neg_fresh_rev G hr (by omega) F (by omega)]
+      rw [specIter_nil (fun cy q => hdeadrow cy q (Nat.zero_le _))]
+    | succ r =>
+      have hs : (⟨cfg.stop.1 - 1, cfg.maxQ, []⟩ : ItState) = st r cfg.maxQ [] := by
+        unfold st; congr 1; omega
+      rw [hs]
+      have hW : (r + 1) * rowW cfg = r * rowW cfg + rowW cfg := Nat.succ_mul _ _
+      have hW1 : rowW cfg = cfg.maxQ + 1 - cfg.minQ := rfl
+      have hrow : rowShape cfg cfg.maxQ (rowW cfg - 1 + 1) := by
+        unfold rowShape; simp only [hr]; simp; omega
+      have hrows : rowsShape cfg r r := by
+        unfold rowsShape; simp only [hr]; simp
+      have hl : live cfg r cfg.maxQ := by
+        unfold live
+        simp only [hr, if_true, ptLt, Bool.or_eq_false_iff, decide_eq_false_iff_not,
+          Bool.and_eq_false_imp, beq_iff_eq]
+        omega
+      rw [main_sim G (F + 1) _ _ r cfg.maxQ [] F F F hrow hrows hl (by omega) (by omega)
+        (by omega) (by omega)]
+      refine congrArg (fun l => Except.ok (some l))
+        (walk_eq_spec_rev G hr ?_ ?_ (by omega) hrow hrows)
+      · intro x hx
+        exact (eligible_facts G hx).2.1
+      · intro x q hx
+        exact hdeadrow x q (by omega)
 
 /-- The dispatch test of `operations_with_cycles`: all arguments are the defaults. -/
 def isDefaultArgs (a : ItArgs) : Bool :=
@@ -1555,18 +1759,13 @@ theorem iterFuel_eq (c : Circ P α) (a : ItArgs) (cfg : ItCfg) :
 def initState (cfg : ItCfg) : ItState :=
   if cfg.reverse then ⟨cfg.stop.1, cfg.stop.2, []⟩ else ⟨cfg.start.1, cfg.start.2, []⟩
 
-theorem cfg_start_nonneg {c : Circ P α} {a : ItArgs} {cfg : ItCfg}
-    (hcfg : mkCfg c.radixes.length c.numCycles a = .ok cfg) (ha : ItArgsOK c a)
-    (hr : cfg.reverse = false) : 0 ≤ cfg.start.1 ∧ 0 ≤ cfg.start.2 := by
-  have G := good_of_mkCfg hcfg ha
+/-- the clamped `start` is the corner of the requested area or the requested `start` -/
+theorem cfg_start_cases {c : Circ P α} {a : ItArgs} {cfg : ItCfg}
+    (hcfg : mkCfg c.radixes.length c.numCycles a = .ok cfg) :
+    cfg.start = ((cfg.minCycle : Int), (cfg.minQ : Int)) ∨ cfg.start = a.start := by
   obtain ⟨qs, rg, hm, hne, hc⟩ := (mkCfg_ok_iff _ _ _ _).1 hcfg
-  refine ⟨by have := G.start_cy; omega, ?_⟩
-  have hrev : cfg.reverse = a.reverse := by rw [hc]; rfl
-  have := ha.start_ok (hrev ▸ hr)
   rw [hc]; simp only [cfgOf]
-  split
-  · exact Int.natCast_nonneg _
-  · exact this
+  split <;> simp
 
 /-- the clamped `end` is the corner of the requested area or the requested `end` -/
 theorem cfg_stop_cases {c : Circ P α} {a : ItArgs} {cfg : ItCfg}
@@ -1579,23 +1778,6 @@ theorem cfg_stop_cases {c : Circ P α} {a : ItArgs} {cfg : ItCfg}
   rw [hc]; simp only [cfgOf]
   cases a.stop <;> simp only <;> split <;> simp
 
-theorem cfg_stop_nonneg {c : Circ P α} {a : ItArgs} {cfg : ItCfg}
-    (hcfg : mkCfg c.radixes.length c.numCycles a = .ok cfg) (ha : ItArgsOK c a)
-    (hr : cfg.reverse = true) : 0 ≤ cfg.stop.1 ∧ 0 ≤ cfg.stop.2 := by
-  have G := good_of_mkCfg hcfg ha
-  have hrev : cfg.reverse = a.reverse := by
-    obtain ⟨qs, rg, hm, hne, hc⟩ := (mkCfg_ok_iff _ _ _ _).1 hcfg
-    rw [hc]; rfl
-  have hn : 0 < c.radixes.length := by have := G.q_lt _ G.minQ_mem; omega
-  rcases cfg_stop_cases hcfg with h | h
-  · rw [h]; exact ⟨Int.natCast_nonneg _, Int.natCast_nonneg _⟩
-  · rw [h]
-    cases hs : a.stop with
-    | none =>
-      have := ha.cycles_pos (hrev ▸ hr) hs
-      simp only; omega
-    | some e => exact ha.stop_nonneg (hrev ▸ hr) e hs
-
 /-- (A), fuel-independent form: with enough fuel (the Python iterator has no fuel at all) the
 state machine returns exactly `specIter`, under the range hypotheses `ItArgsOK` only: no
 IndexError, no other result. -/
@@ -1604,23 +1786,17 @@ theorem gridCollect_eq_spec {c : Circ P α} {a : ItArgs} {cfg : ItCfg}
     ∃ F0, ∀ F, F0 ≤ F →
       gridCollect c cfg F F (initState cfg) = .ok (some (specIter c cfg)) := by
   have G := good_of_mkCfg hcfg ha
-  refine ⟨cfg.maxQ + cfg.stop.2.toNat
-    + (cfg.maxCycle + cfg.stop.1.toNat) * rowW cfg + 2, fun F hF => ?_⟩
+  refine ⟨cfg.start.2.natAbs + cfg.maxQ + cfg.stop.2.toNat
+    + (cfg.maxCycle + cfg.stop.1.toNat) * rowW cfg + 3, fun F hF => ?_⟩
   unfold initState
   cases hr : cfg.reverse
   · simp only [Bool.false_eq_true, if_false]
-    obtain ⟨h1, h2⟩ := cfg_start_nonneg hcfg ha hr
-    have hstart : cfg.start = ((cfg.start.1.toNat : Int), (cfg.start.2.toNat : Int)) := by
-      rw [Int.toNat_of_nonneg h1, Int.toNat_of_nonneg h2]
-    refine gridCollect_fwd G hr hstart ?_
+    refine gridCollect_fwd G hr ?_
     have : (cfg.maxCycle - cfg.start.1.toNat) * rowW cfg
         ≤ (cfg.maxCycle + cfg.stop.1.toNat) * rowW cfg := Nat.mul_le_mul_right _ (by omega)
     omega
   · simp only [if_true]
-    obtain ⟨h1, h2⟩ := cfg_stop_nonneg hcfg ha hr
-    have hstop : cfg.stop = ((cfg.stop.1.toNat : Int), (cfg.stop.2.toNat : Int)) := by
-      rw [Int.toNat_of_nonneg h1, Int.toNat_of_nonneg h2]
-    refine gridCollect_rev G hr hstop ?_
+    refine gridCollect_rev G hr ?_
     have : cfg.stop.1.toNat * rowW cfg
         ≤ (cfg.maxCycle + cfg.stop.1.toNat) * rowW cfg := Nat.mul_le_mul_right _ (by omega)
     omega
@@ -1630,23 +1806,19 @@ IndexError occurs, and the yielded list is the functional specification.
 Hypotheses:
 * `hnd`: the arguments are not all defaults (the default case is `iterate_default`);
 * `hcfg`: the constructor succeeds (its failures are `mkCfg_err_iff`);
-* `ha : ItArgsOK c a`: the arguments are in range: qudits of an explicit region exist, the cycle of
-  an explicit `end` exists, the coordinates of the initial pointer are non-negative (forward: the
-  qudit of `start`; reverse: an explicit `end`), and reverse iteration to the default `end` needs
-  at least one cycle.
-Well-formedness of the circuit is *not* needed.  (`gridCollect_eq_spec` is the fuel-independent
-form.) -/
+* `ha : ItArgsOK c a`: qudits of an explicit region exist and the cycle of an explicit `end`
+  exists (outside these the real iterator can raise IndexError, see `ItArgsOK`).
+Well-formedness of the circuit is *not* needed, nor any sign or range condition on
+`start`/`end`.  (`gridCollect_eq_spec` is the fuel-independent form.) -/
 theorem iterate_eq_spec {c : Circ P α} {a : ItArgs} {cfg : ItCfg}
     (hnd : isDefaultArgs a = false)
     (hcfg : mkCfg c.radixes.length c.numCycles a = .ok cfg) (ha : ItArgsOK c a) :
     c.iterate a = .ok (some (specIter c cfg)) := by
   have G := good_of_mkCfg hcfg ha
   rw [iterate_of_mkCfg hnd hcfg]
-  have hrev : cfg.reverse = a.reverse := by
-    obtain ⟨qs, rg, hm, hne, hc⟩ := (mkCfg_ok_iff _ _ _ _).1 hcfg
-    rw [hc]; rfl
   have hmq := rowW_pos G
   have hW : rowW cfg ≤ cfg.maxQ + 1 := by unfold rowW; omega
+  have hn : cfg.minQ < c.radixes.length := G.q_lt _ G.minQ_mem
   rw [iterFuel_eq]
   generalize hS : cfg.maxQ + c.radixes.length + 3 + a.start.2.natAbs
     + (match a.stop with | some e => e.2.natAbs | none => 0) = S
@@ -1655,42 +1827,33 @@ theorem iterate_eq_spec {c : Circ P α} {a : ItArgs} {cfg : ItCfg}
   cases hr : cfg.reverse
   · -- forward
     simp only [Bool.false_eq_true, if_false]
-    obtain ⟨h1, h2⟩ := cfg_start_nonneg hcfg ha hr
-    have hstart : cfg.start = ((cfg.start.1.toNat : Int), (cfg.start.2.toNat : Int)) := by
-      rw [Int.toNat_of_nonneg h1, Int.toNat_of_nonneg h2]
-    refine gridCollect_fwd G hr hstart ?_
-    have := fuel_arith (x := cfg.maxQ - cfg.start.2.toNat) (r := cfg.maxCycle - cfg.start.1.toNat)
-      (W := rowW cfg) (S := S) (C := C) (D := 1) (by omega) (by omega) (by omega)
+    refine gridCollect_fwd G hr ?_
+    have hx : cfg.start.2.natAbs + cfg.maxQ ≤ S * 1 := by
+      rcases cfg_start_cases hcfg with h | h
+      · rw [h]; simp only [Int.natAbs_natCast]; omega
+      · rw [h]; omega
+    have := fuel_arith (x := cfg.start.2.natAbs + cfg.maxQ)
+      (r := cfg.maxCycle - cfg.start.1.toNat)
+      (W := rowW cfg) (S := S) (C := C) (D := 1) hx (by omega) (by omega)
     omega
   · -- reverse
     simp only [if_true]
-    have hcases := cfg_stop_cases hcfg
     have hlt := G.stop_lt
-    have hnonneg := cfg_stop_nonneg hcfg ha hr
-    have hstop : cfg.stop = ((cfg.stop.1.toNat : Int), (cfg.stop.2.toNat : Int)) := by
-      rw [Int.toNat_of_nonneg hnonneg.1, Int.toNat_of_nonneg hnonneg.2]
-    refine gridCollect_rev G hr hstop ?_
-    have hcy : cfg.stop.1.toNat + 1 ≤ c.numCycles := by omega
-    rcases hcases with h | h
-    · have := fuel_arith (x := cfg.stop.2.toNat - cfg.minQ) (r := cfg.stop.1.toNat)
-        (W := rowW cfg) (S := S) (C := C) (D := 1)
-        (by rw [h]; simp only [Int.toNat_natCast]; omega) (by omega) (by omega)
-      omega
-    · cases hs : a.stop with
-      | some e =>
-        rw [hs] at h hS hC
-        simp only at h hS hC
-        have := fuel_arith (x := cfg.stop.2.toNat - cfg.minQ) (r := cfg.stop.1.toNat)
-          (W := rowW cfg) (S := S) (C := C) (D := 1)
-          (by rw [h]; omega) (by omega) (by omega)
-        omega
-      | none =>
-        rw [hs] at h hS hC
-        simp only at h hS hC
-        have hN := ha.cycles_pos (hrev ▸ hr) hs
-        have := fuel_arith (x := cfg.stop.2.toNat - cfg.minQ) (r := cfg.stop.1.toNat)
-          (W := rowW cfg) (S := S) (C := C) (D := 1)
-          (by rw [h]; simp only; omega) (by rw [h]; simp only; omega) (by omega)
-        omega
+    refine gridCollect_rev G hr ?_
+    have hx : cfg.stop.2.toNat ≤ S * 1 := by
+      rcases cfg_stop_cases hcfg with h | h
+      · rw [h]; simp only [Int.toNat_natCast]; omega
+      · cases hs : a.stop with
+        | some e =>
+          rw [hs] at h hS
+          simp only at h hS
+          rw [h]; omega
+        | none =>
+          rw [hs] at h hS
+          simp only at h hS
+          rw [h]; simp only; omega
+    have := fuel_arith (x := cfg.stop.2.toNat) (r := cfg.stop.1.toNat)
+      (W := rowW cfg) (S := S) (C := C) (D := 1) hx (by omega) (by omega)
+    omega
 
 end BqVerif.CircSim
